@@ -311,12 +311,21 @@ def r18_6(F, R):
         R.ok("R18.6", "Lexer::build/delimiters", "build distinguishes %s" % sorted(map(chr, need)), loc, how="table-agreement")
 
 
+def r18_7(F, R):
+    import json, os
+    from .common import narrowing_rule
+    aud = json.load(open(os.path.join(os.path.dirname(os.path.dirname(os.path.dirname(os.path.abspath(__file__)))), "tables", "narrowing_audited.json")))
+    narrowing_rule(F, R, "R18.7", "the box language (boxworks::lang, boxworks::ds) and common",
+                   lambda fn: fn.crate == "common.lib" or "boxworks::lang::" in fn.name or "boxworks::ds::" in fn.name, 8, aud)
+
+
 def run(F, R, tier):
     r18_1(F, R)
     r18_6(F, R)
     r18_5(F, R)
     r18_3(F, R)
     r18_4(F, R)
+    r18_7(F, R)
     r18_2(F, R, tier)
     return ("Static analysis (partial claim). Decided: the ds<->AST converters cover every field and every variant in both directions (audited drops only, "
             "each tied to the property's stated exclusions); every potential-panic site reachable from the parser, formatter and printers is discharged, "
